@@ -530,10 +530,23 @@ def run_front(prog, rep):
                         okt = True
                     if 'second' in cs and cs.strip().startswith('!'):
                         okd = True
+        if not okd:
+            # other complete idiom: sort a copy by name, then adjacent_find / unique; adjacent_find on the list as given only sees neighbours
+            adj = [c for c in cf.calls() if c.callee.get('name') in ('adjacent_find', 'unique') and c.id < bc[0].id]
+            for a in adj:
+                rng = unwrap(real_args(a)[0])
+                base = [x for x in rng.walk() if x.k == 'ref' and x.decl.get('kind') in ('local', 'param')]
+                bname = base[0].decl.get('name') if base else None
+                sorted_before = any(c.callee.get('name') in ('sort', 'stable_sort') and c.id < a.id and any(x.k == 'ref' and x.decl.get('name') == bname for x in c.walk()) for c in cf.calls())
+                guarded = any(i.k == 'if' and any(x is a for x in i.c[2].walk()) and i.c[3] is not None and any(x.k == 'throw' for x in i.c[3].walk()) for i in cf.walk() if i.k == 'if' and i.c[2] is not None)
+                if sorted_before and guarded:
+                    okd = True
+                elif guarded:
+                    probs.append('duplicate column names are looked for with %s on the list as given (%s is not sorted first): only neighbouring duplicates are rejected, {a, b, a} reaches the backend, which fails after the frame group exists' % (a.callee.get('name'), bname))
         if not okt:
             probs.append('column types are not checked with Variant::supports_type before the backend call')
-        if not okd:
-            probs.append('duplicate column names are not rejected (set insert .second) before the backend call')
+        if not okd and not any('neighbouring' in x for x in probs):
+            probs.append('duplicate column names are not rejected before the backend call (accepted idioms: set insert .second; sort + adjacent_find)')
     rule.check(not probs, 'Block::createDataFrame|column-checks', rep.where(cf), cf.label(), 'unsupported type and duplicate name both throw before backend()->createDataFrame', '; '.join(probs))
     nw = nr = 0
     for f in sorted(prog.fns('nix::DataFrame::writeColumn'), key=lambda f: f.sig):
